@@ -50,9 +50,13 @@ def monitor(case, obs):
         if ctx.get("reader") or "stack" not in ctx: continue
         st = ctx["stack"]
         if ev[0] == "api" and ev[1] == "force_quit": return None          # after a force-quit nothing is processed; C09 covers it
-        if ev[0] == "api" and ev[1] == "push_modal": calls.append({"st": list(st), "sched": 0, "redraw_for": set(), "i": i}); continue
+        if ev[0] == "api" and ev[1] == "push_modal": calls.append({"st": list(st), "sched": 0, "redraw_for": set(), "i": i, "scr": ev[2]}); continue
         if ev[0] == "api" and ev[1] == "schedule":
             for c_ in calls: c_["sched"] += 1
+        if ev[0] == "api" and ev[1] in ("replace", "close_direct", "close_sig"):
+            # the application itself replaces / closes an entry that was beneath the modal one (after the modal entry is gone): its own doing
+            for c_ in calls:
+                if len(st) <= len(c_["st"]) + c_["sched"]: c_["touched"] = True
         if ev[0] == "api" and ev[1] == "redraw_sig" and calls:
             # a redraw queued for a screen beneath the modal one (it belongs to the blocked outer loop)
             name = x.specs[ev[2]]["name"]
@@ -76,7 +80,7 @@ def monitor(case, obs):
             j = 0
             for e in sub:
                 if j < len(at) and e == at[j]: j += 1
-            if j != len(at): return "push_screen_modal returned with the stack %r; at the call it was %r" % (st, at)
+            if j != len(at) and not rec.get("touched"): return "push_screen_modal returned with the stack %r; at the call it was %r" % (st, at)
             continue
         if calls and ev[0] == "cb":
             n = len(calls[-1]["st"])
@@ -90,6 +94,9 @@ def monitor(case, obs):
                     if e2[0] == "api<" and e2[1] == "close_direct": open_close -= 1
                 if len(st) < n and open_close <= 0: return "closed() of %s popped an entry beneath the modal screen (stack %r, %d entries at the call)" % (name, st, n)
             else:
+                # the same screen object can be both beneath and the modal one (pushed over itself): its callbacks right after its modal entry was popped
+                # (a screen that closes itself while being drawn is still asked for its prompt) are not callbacks of the screen beneath
+                if len(st) == n and any(c_["scr"] == ev[1] for c_ in calls): continue
                 if len(st) <= n: return "%s() of %s ran inside push_screen_modal while the stack was %r (%d entries at the call): a screen beneath the modal one" % (ev[2], name, st, n)
     return None
 
